@@ -5,7 +5,7 @@ from props import _rel
 PID = "C03"
 PROPS_FILE = "Props/C03.v"
 PREFIX = "C03"
-KNOWN = {1: "C03-stale-waiter", 2: "C03-gap-skip-ack"}
+KNOWN = {}
 RULE = ("a case is one scenario on the simulated real stack (one RELIABLE writer, one RELIABLE reader, KEEP_ALL / "
         "KEEP_LAST 1-3, 1-3 instances, fragment size 64/128/1344): writes interleaved with network faults on the "
         "queued user datagrams, wait_for_acknowledgments calls that are either answered at once or stay parked "
@@ -18,10 +18,11 @@ gen = _rel.gen_for("C03")
 
 def corpus():
     return [
-        # C03-gap-skip-ack: acknowledged although sample 1 was never delivered
+        # the schedule that exposed C03-gap-skip-ack (repaired by 91937ff): acknowledged only after 1 and 3 were delivered
         parse_line(PRE % (1344, 1, 1, 1) + " ; w 0 1 10 11 ; w 0 2 10 22 ; w 0 2 10 33 ; R 0 1 rel=1 dur=1 ; netm ; wa 0 ; "
                    "t 0 0 ; dr 0 ; adv 250000000 ; pu ; adv 250000000 ; pu ; adv 250000000 ; pu ; wp ; t 0 0 ; wa 0 ; t 0 0 ; q"),
-        # C03-stale-waiter: the matched reader / its participant is deleted while a caller is parked
+        # the schedules that exposed C03-stale-waiter (repaired by 66b3297): the matched reader / its participant is
+        # deleted while a caller is parked: the caller is answered at once
         parse_line(PRE % (1344, 1, 0, 0) + " ; R 0 1 rel=1 dur=0 ; netm ; w 0 1 10 1 ; dr 0 ; wa 0 ; delR 0 ; netm ; "
                    "adv 250000000 ; pu ; adv 250000000 ; pu ; adv 250000000 ; pu ; wp ; wa 0 ; q"),
         parse_line(PRE % (1344, 1, 0, 0) + " ; R 0 1 rel=1 dur=0 ; netm ; w 0 1 10 1 ; dr 0 ; wa 0 ; delall 1 ; delP 1 ; netm ; "
@@ -35,23 +36,26 @@ def corpus():
 MANIFEST = {
     "text": ("Machine-checked proofs (Coq) over the protocol model shared with C01 (RTPS writer/reader state machines, "
              "DCPS glue, notify_acknowledgments and the wait list drained by accepted ACKNACKs, network of queued "
-             "datagrams). SOUNDNESS, for every KEEP_ALL writer and EVERY schedule (all faults, fragmented samples, "
-             "late joiners): whenever the acknowledgement test of wait_for_acknowledgments succeeds - when it is "
+             "datagrams). SOUNDNESS, unbounded, for every history QoS (KEEP_ALL, KEEP_LAST with any "
+             "number of instances) and EVERY schedule (all faults, fragmented samples, removals, late joiners, "
+             "deletions): whenever the acknowledgement test of wait_for_acknowledgments succeeds - when it is "
              "called or when a parked caller is answered - the reliable matched reader has been given every change "
-             "the writer holds and that is relevant for it; by induction with the invariant that GAPs only cover "
-             "irrelevant samples, highest_acked <= highest_received and nothing relevant below highest_received is "
-             "skipped. The statement for every history QoS is refuted by a witness (known finding C03-gap-skip-ack). "
-             "COMPLETION at full strength is refuted by witnesses (known finding C03-stale-waiter: after "
-             "delete_datareader on the peer or deletion of its participant the reader proxy is removed but the wait "
-             "list is only re-evaluated when an ACKNACK is accepted, so a caller parked earlier is never answered). "
-             "Proved part of completion (stage 1: KEEP_ALL, unfragmented, no removal, no deletion, at most 256 samples, "
+             "the writer holds and that is relevant for it; by induction with the invariant that a GAP in flight "
+             "only covers sequence numbers at which nothing relevant is held, a HEARTBEAT's first sequence number is at or "
+             "below everything held, and whatever an ACKNACK acknowledges, the reader accounts for or the writer "
+             "recorded as acknowledged has been presented as far as it is still held and relevant (needs the contiguity "
+             "test of 91937ff; former finding C03-gap-skip-ack). NO STALE WAITER, unbounded, every schedule: whenever the "
+             "test holds nobody is parked, in particular once the reader proxy is gone (delete_datareader on the peer, "
+             "deletion of its participant) every caller has been answered (repair 66b3297 of the former finding "
+             "C03-stale-waiter). COMPLETION while the reader stays matched, proved part (stage 1: KEEP_ALL, unfragmented, no removal, no deletion, at most 256 samples, "
              "at least one relevant sample): after healing rounds that drain the network plus one more, the "
              "acknowledgement test holds and no caller is parked (k + 2 heartbeat periods). The model is tied to the code by differential "
              "correspondence on a deterministic whole-stack simulation; the oracle (a success is followed by a take "
              "that contains every retained relevant sample; after healing no caller is parked) judges the real "
              "observations."),
     "note": ("Trusted: Coq kernel, hand model RelModel.v (correspondence-checked on every run), simulation harness, "
-             "generator. Axioms: none. Known findings C03-gap-skip-ack, C03-stale-waiter. Bounded time of completion is "
+             "generator. Axioms: none. Former findings C03-gap-skip-ack, C03-stale-waiter are repaired (91937ff, 66b3297); their "
+             "schedules are in the corpus. Bounded time of completion is "
              "expressed in healing rounds (one heartbeat period each). One writer/reader pair."),
-    "technique": "Coq proof (invariants over all schedules, refutation witnesses) + differential correspondence on a deterministic whole-stack simulation",
+    "technique": "Coq proof (invariants over all schedules, healing invariant) + differential correspondence on a deterministic whole-stack simulation",
 }
